@@ -139,8 +139,8 @@ func (x *symExec) eval(e ast.Expr, st *symState) sym {
 		if within(o, x.region) {
 			return sym{} // declared in the iteration, read before any assignment we understood
 		}
-		if o == x.conn {
-			return sym{k: symConn, obj: o}
+		if o == x.conn || RootObj(x.info, v) == x.conn { // the connection, or a stable copy of it
+			return sym{k: symConn, obj: x.conn}
 		}
 		if b, ok := vr.Type().Underlying().(*types.Basic); ok && b.Info()&types.IsInteger != 0 {
 			return sym{k: symT0, obj: o}
@@ -149,11 +149,25 @@ func (x *symExec) eval(e ast.Expr, st *symState) sym {
 			return sym{k: symConn, obj: o}
 		}
 	case *ast.SelectorExpr:
+		if d := LitField(x.info, v); d != nil { // a field of a context struct that only carries the value
+			return x.eval(d, st)
+		}
 		if core.IsFieldNamed(x.info, v, "Configuration", "TargetDB") {
 			return sym{k: symG}
 		}
 		if core.IsFieldNamed(x.info, v, "BinEntry", "DB") && x.isEntry(v.X, st) {
 			return sym{k: symE}
+		}
+		if o := Slot(x.info, v); slotRoot[o] != nil { // state held in a field of a struct local
+			if s, ok := st.vals[o]; ok {
+				return s
+			}
+			if within(o, x.region) {
+				return sym{}
+			}
+			if b, ok := o.Type().Underlying().(*types.Basic); ok && b.Info()&types.IsInteger != 0 {
+				return sym{k: symT0, obj: o}
+			}
 		}
 	}
 	return sym{}
@@ -251,12 +265,19 @@ func (x *symExec) truth(e ast.Expr, st *symState, need map[string]bool) int {
 
 // assign executes `lhs = rhs` for one position.
 func (x *symExec) assign(lhs, rhs ast.Expr, st *symState, pre *symState) {
-	id, ok := Strip(x.info, lhs).(*ast.Ident) // `*p = v` with p := &x (or *&x after expansion) assigns x
-	if !ok {
-		return
+	var o types.Object
+	switch l := Strip(x.info, lhs).(type) { // `*p = v` with p := &x (or *&x after expansion) assigns x
+	case *ast.Ident:
+		if l.Name == "_" {
+			return
+		}
+		o = core.ObjOf(x.info, l)
+	case *ast.SelectorExpr:
+		if o = Slot(x.info, l); slotRoot[o] == nil {
+			return
+		}
 	}
-	o := core.ObjOf(x.info, id)
-	if o == nil || id.Name == "_" {
+	if o == nil {
 		return
 	}
 	if rhs == nil {
@@ -523,7 +544,7 @@ func selectTracking(c *core.Ctx, fn *core.Fn, short string, w *ast.FuncLit, rs *
 		}
 		for _, l := range lhs {
 			l = Strip(info, l)
-			if v, ok := core.ObjOf(info, l).(*types.Var); ok && !v.IsField() && v.Pkg() != nil && v.Parent() != v.Pkg().Scope() && !within(v, rs.Body) && within(v, fn.Decl) {
+			if v, ok := Slot(info, l).(*types.Var); ok && !v.IsField() && v.Pkg() != nil && v.Parent() != v.Pkg().Scope() && !within(v, rs.Body) && within(v, fn.Decl) {
 				if b, ok := v.Type().Underlying().(*types.Basic); ok && b.Info()&types.IsInteger != 0 {
 					trackers[v] = true
 				}
@@ -570,7 +591,7 @@ func selectTracking(c *core.Ctx, fn *core.Fn, short string, w *ast.FuncLit, rs *
 	switch {
 	case tracker != nil:
 		c.Check("R1.private", short+"/lastdb", tracker.Pos(), !parallel || within(tracker, w), shared)
-		if v, ok := initConst(info, fn.Decl.Body, tracker); !ok {
+		if v, ok := slotInit(info, fn.Decl.Body, tracker); !ok {
 			c.Undecidedf("R2.init", short, tracker.Pos(), "initial value of the tracker is not a constant")
 		} else {
 			c.Check("R2.init", short, tracker.Pos(), v == 0,
@@ -615,4 +636,35 @@ func selectTracking(c *core.Ctx, fn *core.Fn, short string, w *ast.FuncLit, rs *
 	} else {
 		c.Okf("R2.source", short+"/select", rs.Pos(), "%d SelectDB site(s) executed symbolically on %d path(s)", x.selects, x.paths)
 	}
+}
+
+// slotInit is initConst for a variable or a field slot: a field starts with what the literal that defines its
+// root gives it (0 when the literal does not mention it, or when the root is declared without a value).
+func slotInit(info *types.Info, body ast.Node, v types.Object) (int64, bool) {
+	root := slotRoot[v]
+	if root == nil {
+		return initConst(info, body, v)
+	}
+	d, has := initVal[root]
+	if !has {
+		return 0, true // `var w T`
+	}
+	d = ast.Unparen(d)
+	if u, isAddr := d.(*ast.UnaryExpr); isAddr && u.Op == token.AND {
+		d = ast.Unparen(u.X)
+	}
+	cl, ok := d.(*ast.CompositeLit)
+	if !ok {
+		return 0, false
+	}
+	for _, el := range cl.Elts {
+		kv, isKV := el.(*ast.KeyValueExpr)
+		if !isKV {
+			return 0, false // positional literal: not read
+		}
+		if k, isID := kv.Key.(*ast.Ident); isID && k.Name == slotField[v] {
+			return core.IntConst(info, kv.Value)
+		}
+	}
+	return 0, true
 }
